@@ -23,7 +23,7 @@ RULE = RULE + "; ages {5, 9, 13, 14, 19.5, 35 ... 104} wherever the tabulated ne
 ASSUMPTIONS = ['the distance a code denotes is computed by the check (N m, 1000 N m for K, 1609 N m for M), not taken from get_distance',
                '1e-4 (the tables\' resolution) absorbs the 1 609 m vs 1 609.344 m mile used by get_distance',
                'the factor of the bracketing tabulated rows is obtained through the public function (decided by C14)']
-RULE = RULE + '; every whole kilometre / mile also written N.0 / N.00; ages include 47.25, 61.75, 83.1; interleaved histories include tabulated, field and raising calls'
+RULE = RULE + '; track distances in yards (N Y / N y, 1 yd = 0.9144 m); every whole kilometre / mile also written N.0 / N.00; ages include 47.25, 61.75, 83.1; interleaved histories include tabulated, field and raising calls'
 
 AGES = [5, 9, 13, 14, 19.5, 35, 47.25, 50, 61.75, 72.5, 83.1, 90, 100, 104]      # across the table: whole, half and other fractional ages
 _tab = {}
@@ -204,6 +204,11 @@ def shard(ctx, payload):
                         codes.append((d, txt + '.00K'))
                     elif len(txt.split('.')[1]) == 1:
                         codes.append((d, txt + '0K'))
+    elif kind == 'Y':
+        # track distances in yards (1 yd = 0.9144 m): every whole yard from 20 to 12 000, both letter cases
+        codes = []
+        for y in range(20, 12001, 1 if thorough else 3):
+            codes.append((int(y * 0.9144), '%d%s' % (y, 'Yy'[y % 2])))
     else:
         codes = []
         for cm in range(1, 25001, 1 if thorough else 7):       # hundredths of a mile up to 250 miles
@@ -323,7 +328,7 @@ def run(ctx):
     nparts = 8 if thorough else 2
     for year in (2015, 2023):
         for g in 'mf':
-            for kind in ('bare', 'K', 'M'):
+            for kind in ('bare', 'K', 'M', 'Y'):
                 for part in range(nparts):
                     payloads.append((year, g, kind, thorough, part, nparts))
     run_shards(ctx, 'checks.c15', 'shard', payloads, disjoint=True)
